@@ -651,6 +651,109 @@ theorem notField_cells (n : String) (v : Int) : ∀ (os : List (Nat × Bool)),
 theorem cellsIn_mono {P Q : Nat → Prop} {p : List Step} (h : ∀ c, P c → Q c) (hp : cellsIn P p) : cellsIn Q p :=
   fun s hs => ⟨fun c hc => h c ((hp s hs).1 c hc), fun c hc => h c ((hp s hs).2 c hc)⟩
 
+/-! cells of the wrapper programs for an arbitrary own name -/
+
+theorem cellsIn_cons' {P : Nat → Prop} {s : Step} {p : List Step} (hw : ∀ c ∈ s.writeCells, P c)
+    (hr : ∀ c ∈ s.readCells, P c) (hp : cellsIn P p) : cellsIn P (s :: p) := cellsIn_cons ⟨hw, hr⟩ hp
+
+theorem cellsIn_write {P : Nat → Prop} {c : Nat} {n : Nm} {p : List Step} (hc : P c) (hn : ∀ x ∈ n.cells, P x)
+    (hp : cellsIn P p) : cellsIn P (.write c n :: p) :=
+  cellsIn_cons' (by simpa [Step.writeCells] using hc) (by simpa [Step.readCells] using hn) hp
+
+theorem cellsIn_check {P : Nat → Prop} {n : Nm} {ok : Bool} {p : List Step} (hn : ∀ x ∈ n.cells, P x)
+    (hp : cellsIn P p) : cellsIn P (.check n ok :: p) :=
+  cellsIn_cons' (by simp [Step.writeCells]) (by cases ok <;> simpa [Step.readCells] using hn) hp
+
+theorem cellsIn_store {P : Nat → Prop} {n : Nm} {v : Int} {ok : Bool} {p : List Step} (hn : ∀ x ∈ n.cells, P x)
+    (hp : cellsIn P p) : cellsIn P (.store n v ok :: p) :=
+  cellsIn_cons' (by simp [Step.writeCells]) (by simpa [Step.readCells] using hn) hp
+
+theorem cellsIn_load {P : Nat → Prop} {n : Nm} {p : List Step} (hn : ∀ x ∈ n.cells, P x)
+    (hp : cellsIn P p) : cellsIn P (.load n :: p) :=
+  cellsIn_cons' (by simp [Step.writeCells]) (by simpa [Step.readCells] using hn) hp
+
+theorem cellsIn_move {P : Nat → Prop} {a b : Nm} {p : List Step} (ha : ∀ x ∈ a.cells, P x) (hb : ∀ x ∈ b.cells, P x)
+    (hp : cellsIn P p) : cellsIn P (.move a b :: p) :=
+  cellsIn_cons' (by simp [Step.writeCells]) (by
+    intro c hc
+    simp only [Step.readCells, List.mem_append] at hc
+    rcases hc with hc | hc
+    · exact ha c hc
+    · exact hb c hc) hp
+
+theorem cell_cells {P : Nat → Prop} {c : Nat} (h : P c) : ∀ x ∈ (Nm.cell c).cells, P x := by
+  intro x hx
+  simp only [Nm.cells, List.mem_singleton] at hx
+  subst hx
+  exact h
+
+theorem wrapProg_cells {P : Nat → Prop} (kind : WKind) (own : Nm) (v : Int) (hown : ∀ x ∈ own.cells, P x) :
+    ∀ (os : List (Nat × Bool)), (∀ o ∈ os, P o.1) → cellsIn P (wrapProg kind own v os) := by
+  have tailOk : cellsIn P [.store own v true, .load own] := cellsIn_store hown (cellsIn_load hown (cellsIn_nil _))
+  have failOk : cellsIn P [.check own false] := cellsIn_check hown (cellsIn_nil _)
+  cases kind with
+  | allOf =>
+    intro os hos
+    simp only [wrapProg, progAllOf]
+    refine cellsIn_append ?_ tailOk
+    induction os with
+    | nil => exact cellsIn_nil _
+    | cons o rest ih =>
+      obtain ⟨c, ok⟩ := o
+      have hc : P c := hos (c, ok) (by simp)
+      exact cellsIn_write hc hown (cellsIn_check (cell_cells hc) (ih (fun o ho => hos o (List.mem_cons_of_mem _ ho))))
+  | anyOf =>
+    intro os
+    induction os with
+    | nil => intro _; exact failOk
+    | cons o rest ih =>
+      intro hos
+      obtain ⟨c, ok⟩ := o
+      have hc : P c := hos (c, ok) (by simp)
+      simp only [wrapProg, progAnyOf]
+      refine cellsIn_write hc hown (cellsIn_check (cell_cells hc) ?_)
+      cases ok with
+      | true => exact cellsIn_store (cell_cells hc) (cellsIn_move hown hown (cellsIn_load hown (cellsIn_nil _)))
+      | false => exact ih (fun o ho => hos o (List.mem_cons_of_mem _ ho))
+  | oneOf =>
+    intro os hos
+    simp only [wrapProg, progOneOf]
+    refine cellsIn_append ?_ (by split; exact tailOk; exact failOk)
+    induction os with
+    | nil => exact cellsIn_nil _
+    | cons o rest ih =>
+      obtain ⟨c, ok⟩ := o
+      have hc : P c := hos (c, ok) (by simp)
+      exact cellsIn_write hc hown (cellsIn_check (cell_cells hc) (ih (fun o ho => hos o (List.mem_cons_of_mem _ ho))))
+  | notField =>
+    intro os
+    induction os with
+    | nil => intro _; exact tailOk
+    | cons o rest ih =>
+      intro hos
+      obtain ⟨c, ok⟩ := o
+      have hc : P c := hos (c, ok) (by simp)
+      simp only [wrapProg, progNotField]
+      refine cellsIn_write hc hown (cellsIn_check (cell_cells hc) ?_)
+      cases ok with
+      | true => exact failOk
+      | false => exact ih (fun o ho => hos o (List.mem_cons_of_mem _ ho))
+
+theorem nestFrom_cells {P : Nat → Prop} (cW : Nat) (name : String) (kind : WKind) (hW : P cW) :
+    ∀ (es : List (Int × List (Nat × Bool))) (i : Nat), (∀ e ∈ es, ∀ o ∈ e.2, P o.1) →
+      cellsIn P (progNestFrom cW name kind i es) := by
+  intro es
+  induction es with
+  | nil => intro i _; exact cellsIn_nil _
+  | cons e rest ih =>
+    intro i hes
+    obtain ⟨v, opts⟩ := e
+    simp only [progNestFrom]
+    refine cellsIn_write hW (fun _ h => nomatch h) (cellsIn_check (cell_cells hW) (cellsIn_append ?_ ?_))
+    · exact wrapProg_cells kind (.cell cW) v (cell_cells hW) opts (fun o ho => hes (v, opts) (by simp) o ho)
+    · exact ih (i + 1) (fun e he => hes e (List.mem_cons_of_mem _ he))
+
+
 theorem Call.prog_cellsIn (call : Call) : cellsIn (fun c => call.usesCell c = true) call.prog := by
   cases call with
   | homog cell name w es =>
@@ -696,6 +799,17 @@ theorem Call.prog_cellsIn (call : Call) : cellsIn (fun c => call.usesCell c = tr
       · exact cellsIn_const_tail _ _ _
       · exact cellsIn_const_fail _ _
     | notField => exact cellsIn_mono hQ (notField_cells name v os)
+  | nest cW name kind es =>
+    have hW : (Call.nest cW name kind es).usesCell cW = true := by simp [Call.usesCell]
+    have hes : ∀ e ∈ es, ∀ o ∈ e.2, (Call.nest cW name kind es).usesCell o.1 = true := by
+      intro e he o ho
+      simp only [Call.usesCell, Bool.or_eq_true, List.any_eq_true]
+      right
+      refine ⟨e, he, ?_⟩
+      rw [List.contains_iff_mem, List.mem_map]
+      exact ⟨o, ho, rfl⟩
+    exact cellsIn_write hW (fun _ h => nomatch h) (cellsIn_cons (step_private rfl rfl)
+      (nestFrom_cells cW name kind hW es 0 hes))
 
 /-- a call only writes and reads the cells of its own declaration -/
 theorem Call.prog_cells (call : Call) :
